@@ -293,7 +293,7 @@ def queues(ck, ctx):
     R = ctx.res(b)
     cfg = ctx.cfg(b)
     for bb, t in b.calls():
-        if callee_of(t).endswith("VecDeque::push_back"):
+        if callee_of(t).endswith(("VecDeque::push_back", "VecDeque::push_front")):
             ide = strip(R.arg(bb, 1))
             sets = [sbb for sbb, st in Q.sites_in(b, SM.SET) if new_states(R.arg(sbb, 3)) == {"Queued"} and strip(R.arg(sbb, 1)) == ide]
             ck.ob("queues", "enqueue-set-then-push", any(cfg.dominates(s, bb) for s in sets), "enqueue pushes %s after set(id, Queued) on the same id" % show(ide), span=t["loc"], fn=b.nname)
@@ -310,10 +310,10 @@ def queues(ck, ctx):
                 if a[0] == "agg" and a[3] == "None":
                     continue
                 n += 1
-                cs = [c for c in calls_in(a) if c[1].endswith("VecDeque::pop_front")]
+                cs = [c for c in calls_in(a) if c[1].endswith(("VecDeque::pop_front", "VecDeque::pop_back"))]
                 good = bool(cs) and all(field_chain(strip(c[2][0]))[1][-1:] == [fld] for c in cs)
                 okr &= good
-        ck.ob("queues", fn + "|returns-popped", okr and n > 0, "%s returns only ids popped from the front of .%s" % (fn, fld), span=b.loc, fn=fn)
+        ck.ob("queues", fn + "|returns-popped", okr and n > 0, "%s returns only ids popped from .%s (which end is a scheduling choice, not part of the property)" % (fn, fld), span=b.loc, fn=fn)
 
 
 def ready_want(ck, ctx):
@@ -514,7 +514,12 @@ def ready_recheck(ck, ctx):
     variants = F.variants(STATE)
     get_bbs = {bb for bb, _ in gets}
 
+    from n2sa.flagint import OPTION as _OPT
+
     def hook(fi, bi, t, callee, args, vals, ghost):
+        if callee.endswith(("Iterator>::next", "range::next")) and any(c[1] == "graph::Build::ordering_ins" for c in calls_in(R.arg(bi, 0))):
+            # the walk over the ordering inputs: `true` may only be answered once it is exhausted
+            return [(("en", _OPT, "None", ()), dict(ghost, exhausted=True)), (("en", _OPT, "Some", None), ghost)]
         if bi in get_bbs:
             is_ref = ((t["dest"].get("ty") or {}).get("s") or "").startswith("&")
             out = []
@@ -530,6 +535,8 @@ def ready_recheck(ck, ctx):
         nd = dict(g).get("non_done", False)
         if rv != ("b", not nd):
             bad.append("some producer not Done=%s -> %s" % (nd, rv[1] if rv and rv[0] == "b" else "undetermined"))
+        if rv == ("b", True) and not dict(g).get("exhausted"):
+            bad.append("true answered before every ordering input was examined")
     ck.ob("ready-recheck", "answer-table", len(fi.rets) >= 2 and not bad and not fi.capped, "recheck_ready answers true exactly when no examined producer state differs from Done (%d abstract returns; %s)" % (len(fi.rets), bad or "all consistent"), span=b.loc, fn=b.nname)
     ck.extra.setdefault("flagint", {})["recheck_ready"] = dict(states_explored=fi.visited, returns=len(fi.rets))
     # the loop body cannot skip a generated input: from the Some(input) arm the state read is unavoidable
@@ -637,6 +644,7 @@ def dependents(ck, ctx):
 
 
 def run(ck, ctx):
+    C.loops_complete(ck, ctx, "ready-recheck", [("work::Work::ready_dependents", "work::Work::recheck_ready", "the dependents of a finished step"), ("work::Work::ready_dependents", "std::collections::HashSet::insert", "the outputs' dependents")])
     SM.eff_table(ck, ctx, ["replace", "ready-push", "pending+", "pending-"])
     ck.extra["exhaustive_subrule"] = "table: all 98 abstract inputs of BuildStates::set enumerated"
     sites(ck, ctx)
